@@ -20,6 +20,7 @@ import (
 
 type inoutInfo struct {
 	params map[*types.Func]map[int]bool
+	lens   map[*types.Func]bool // the first result may be part of the tree below a parameter (prevValueByPath)
 }
 
 func funcDecls(p *pkgInfo) map[*types.Func]*ast.FuncDecl {
@@ -84,7 +85,7 @@ func rootOf(e ast.Expr) *ast.Ident {
 }
 
 func computeInout(p *pkgInfo) *inoutInfo {
-	info := &inoutInfo{params: map[*types.Func]map[int]bool{}}
+	info := &inoutInfo{params: map[*types.Func]map[int]bool{}, lens: map[*types.Func]bool{}}
 	decls := funcDecls(p)
 	changed := true
 	for changed {
@@ -211,6 +212,38 @@ func computeInout(p *pkgInfo) *inoutInfo {
 						changed = true
 					}
 				}
+			}
+			// does the first result alias a parameter?
+			if sig := fo.Type().(*types.Signature); sig.Results().Len() >= 1 && treeKind(sig.Results().At(0).Type()) && !info.lens[fo] {
+				ast.Inspect(fd.Body, func(n ast.Node) bool {
+					if _, isLit := n.(*ast.FuncLit); isLit {
+						return false
+					}
+					rs, ok := n.(*ast.ReturnStmt)
+					if !ok || len(rs.Results) == 0 {
+						return true
+					}
+					e := rs.Results[0]
+					if r := rootOf(e); r != nil && len(alias[p.info.Uses[r]]) > 0 {
+						info.lens[fo] = true
+						changed = true
+					}
+					if c, ok := e.(*ast.CallExpr); ok {
+						if id, ok := c.Fun.(*ast.Ident); ok {
+							if callee, ok := p.info.Uses[id].(*types.Func); ok && (info.lens[callee] || callee == fo) {
+								for _, a := range c.Args {
+									if ra := rootOf(a); ra != nil && len(alias[p.info.Uses[ra]]) > 0 && info.lens[callee] {
+										if !info.lens[fo] {
+											info.lens[fo] = true
+											changed = true
+										}
+									}
+								}
+							}
+						}
+					}
+					return true
+				})
 			}
 			ast.Inspect(fd.Body, func(n ast.Node) bool {
 				switch x := n.(type) {
